@@ -3,9 +3,13 @@ import RModel.Props.C19a
 namespace C19.Part
 open Output C19
 
-theorem status_zero_iff_success_partial :
-    (rows.all fun r => check r fun o => replaceEarlyReturn r || (o.exitZero == succeeded r o)) = true := by decide +kernel
+theorem status_zero_iff_success :
+    (rows.all fun r => check r fun o => o.exitZero == succeeded r o) = true := by decide +kernel
 
-example : (rows.filter fun r => !replaceEarlyReturn r).length > 500 := by decide +kernel
+theorem C19_partial :
+    (jsonRows.all fun r => (docScenarios r.cmd).all fun s => ((s.1 && s.2) != r.planEmpty) ||
+      check r (fun o => oneDocument o && (o.failed || shapeMismatch r.cmd || conformsCmd r.cmd s.1 s.2)
+                        && (o.exitZero == succeeded r o))) = true := by
+  decide +kernel
 
 end C19.Part
